@@ -174,6 +174,26 @@ def configure(spec, xu: dict, config: str, start_mode: str, rng):
             elif config != 'onesided_active' and rng.random() < 0.5:
                 p[k]['lb'] = round(xu[k] - width(k), 4)
                 p[k]['ub'] = round(xu[k] + width(k), 4)
+    # sign constraints: a good share of the declared bounds sit at exactly 0 (the commonest bound in practice),
+    # as int or float, active (contrary to the data) or inactive. Own generator, derived from the problem.
+    import hashlib
+
+    rz = np.random.default_rng(int.from_bytes(hashlib.sha1(repr((sorted(xu.items()), config)).encode()).digest()[:4], 'little'))
+    for k in free:
+        if abs(xu[k]) <= 0.05 * typ(k) or rz.random() >= 0.4:
+            continue
+        zero = 0 if rz.random() < 0.5 else 0.0
+        lb, ub = p[k]['lb'], p[k]['ub']
+        if xu[k] > 0:
+            if ub is not None and ub < xu[k] and (lb is None or lb < 0):
+                p[k]['ub'] = zero  # active upper bound at 0
+            elif lb is not None and lb < 0 and (ub is None or ub > xu[k]):
+                p[k]['lb'] = zero  # inactive lower bound at 0
+        else:
+            if lb is not None and lb > xu[k] and (ub is None or ub > 0):
+                p[k]['lb'] = zero  # active lower bound at 0
+            elif ub is not None and ub > 0 and (lb is None or lb < xu[k]):
+                p[k]['ub'] = zero  # inactive upper bound at 0
     # starting values
     for k in free:
         lo = p[k]['lb'] if p[k]['lb'] is not None else xu[k] - 2.0 * (abs(xu[k]) + 0.5 * typ(k))
